@@ -274,7 +274,8 @@ def check_dag_latents(case):
                     tgt = g if inplace else r
                     if set(g.latents) != set(lat):
                         return {"key": "DAG.do:latents-of-receiver", "what": f"edges={edges} do([{x!r}], inplace={inplace}): receiver latents {g.latents} != {lat}"}
-                    if set(tgt.latents) != set(lat):
+                    if inplace and set(tgt.latents) != set(lat):
+                        # out-of-place DAG.do returns a networkx copy without latent flags; C13 does not promise them
                         return {"key": "DAG.do:latents-dropped", "what": f"DAG(latents={lat}, edges={edges}).do([{x!r}], inplace={inplace}).latents == {tgt.latents}"}
     return None
 
